@@ -164,3 +164,7 @@ pub fn decision(o: &Outcome<bool>) -> String {
         _ => "refused".into(),
     }
 }
+
+pub fn unhex(s: &str) -> Vec<u8> {
+    (0..s.len() / 2).map(|i| u8::from_str_radix(&s[2 * i..2 * i + 2], 16).unwrap()).collect()
+}
